@@ -2069,6 +2069,21 @@ func (b *VerifC06Builder) Tx(prevs []string, lc string, signer int, pal bool, pi
 	return c
 }
 
+// TxKid builds a transaction signed by key `signer` that names its key by `kid` (no embedded key)
+func (b *VerifC06Builder) TxKid(prevs []string, lc string, signer int, kid string, pid int, note string) VerifC06Call {
+	sp := v6Spec{prevs: prevs, lc: lc, signer: signer, embed: -1, kid: kid, pid: pid, ph: v6Sha(v6Payload(&pid))}
+	_, c := b.g.build(sp)
+	p := pid
+	c.Pid = &p
+	c.Sha = v6Sha(v6Payload(&p))
+	c.Phs = []string{sp.ph}
+	c.Note = note
+	return c
+}
+
+// PublicKey of builder key i (for DID documents in a real DID store)
+func (b *VerifC06Builder) PublicKey(i int) crypto.PublicKey { return &b.g.keys[i].priv.PublicKey }
+
 // CallOf describes arbitrary bytes (e.g. a transaction made by the real CreateTransaction); verdicts by ECDSA verification
 func (b *VerifC06Builder) CallOf(input []byte) VerifC06Call {
 	c := v6CallOf(input)
